@@ -677,7 +677,7 @@ impl Block {
         //
         // total fees
         //
-        block.total_fees = block.total_fees_new + block.total_fees_atr;
+        block.total_fees = block.total_fees_new.saturating_add(block.total_fees_atr);
 
         //
         // avg total fees
@@ -1859,8 +1859,12 @@ impl Block {
                         // cumulative fees are set as the total number of new fees, unless atr transactions
                         // exist in which case we will update this value to include the fees paid by the
                         // subset of ATR transactions which rebroadcast, etc.
-                        cv.total_fees_cumulative = cv.total_fees_new + cv.total_fees_atr
-                            - cv.total_fees_paid_by_nonrebroadcast_atr_transactions;
+                        // (total_fees_new is the sum of what the transactions of a block nobody has validated
+                        // yet claim as fees: it may sit at the saturation value)
+                        cv.total_fees_cumulative = cv
+                            .total_fees_new
+                            .saturating_add(cv.total_fees_atr)
+                            .saturating_sub(cv.total_fees_paid_by_nonrebroadcast_atr_transactions);
 
                         //
                         // if ATR payouts are too large, adjust payout downwards
@@ -1956,7 +1960,7 @@ impl Block {
         //
         // total fees
         //
-        cv.total_fees = cv.total_fees_new + cv.total_fees_atr;
+        cv.total_fees = cv.total_fees_new.saturating_add(cv.total_fees_atr);
 
         //
         // fee_per_byte
